@@ -61,6 +61,10 @@ def run_one(m, args):
                                capture_output=True, text=True, timeout=3600)
             lines = [l for l in p.stdout.splitlines() if l.startswith(("VIOLATION", "clause ", "corpus", "HARNESS"))]
             outcomes[prop] = {"rc": p.returncode, "lines": lines[:6]}
+        if m.get("expect") == "survive":  # behaviour-preserving change: the check must stay quiet (false-alarm probe)
+            ok = all(o["rc"] == 0 for o in outcomes.values())
+            return dict(m, result="caught" if ok else "FALSE-ALARM", suite=suite, outcomes=outcomes,
+                        wall=round(time.time() - t0, 1))
         caught = all(o["rc"] == 1 for o in outcomes.values())
         return dict(m, result="caught" if caught else "MISSED", suite=suite, outcomes=outcomes,
                     wall=round(time.time() - t0, 1))
